@@ -53,6 +53,10 @@ SAMPLE_ARGS = {
     "QAveragePooling2D": {}, "QGlobalAveragePooling2D": {}, "QScaleShift": {},
 }
 NOT_LAYER_SPECS = ["QInitializer", "Clip", "QBidirectional"]
+# forwarded constructor arguments (see forwarded_params) that the class' own call() never looks at:
+# QConv2DBatchnorm.call folds and convolves self.kernel directly, the QConv2D mask is stored and
+# serialised but not applied
+FORWARDED_NOT_READ = {("QConv2DBatchnorm", "mask")}
 
 
 def pv(v):
@@ -97,6 +101,54 @@ def sig_params(cls):
   return out
 
 
+def forwarded_params(c, co, sample):
+  """constructor arguments a class does not name itself but accepts through **kwargs and hands to
+  the constructor of a library base class that does (QConv2DBatchnorm -> QConv2D: kernel_range,
+  bias_range, mask).  They are constructor parameters of the class for every purpose of C13:
+  get_config writes them and from_config / cls(**config) reads them back.  Observed live: the base
+  class' signature, and that the constructor accepts the argument at its default."""
+  sig = inspect.signature(c.__init__)
+  if not any(p.kind == p.VAR_KEYWORD for p in sig.parameters.values()):
+    return []
+  bases = [b for b in c.__mro__[1:] if any(b is v for v in co.values())]
+  if not bases:
+    return []
+  own = set(sig.parameters)
+  out = []
+  for name, req, d in sig_params(bases[0]):
+    if name in own or req:
+      continue
+    try:
+      c(**dict(sample, **{name: d}))
+    except TypeError:
+      continue
+    out.append((name, req, d))
+  return out
+
+
+def tolist_keys(c, pnames):
+  """constructor arguments on which get_config calls `.tolist()` (AttributeError for anything that
+  is not a numpy value) — observed on a default instance whose attribute is replaced by a plain
+  object"""
+  class Plain:  # pylint: disable=too-few-public-methods
+    pass
+  out = []
+  for p in pnames:
+    q = c()
+    try:
+      setattr(q, p, Plain())
+    except Exception:  # pylint: disable=broad-except
+      continue
+    try:
+      q.get_config()
+    except AttributeError as e:
+      if "tolist" in str(e):
+        out.append(p)
+    except Exception:  # pylint: disable=broad-except
+      pass
+  return out
+
+
 def is_quantizer_class(c):
   from qkeras import base_quantizer
   return inspect.isclass(c) and issubclass(c, base_quantizer.BaseQuantizer)
@@ -120,7 +172,8 @@ def quantizer_table():
       if getattr(q2, "alpha", None) == "auto_po2":
         tr = 2 if ("symmetric" in pnames and _sets_symmetric(c)) else 1
     out.append({"name": n, "params": [[k, pv(d)] for k, _, d in ps], "emits": list(cfg.keys()),
-                "extra": [[k, pv(v)] for k, v in cfg.items() if k not in pnames], "trainable": tr})
+                "extra": [[k, pv(v)] for k, v in cfg.items() if k not in pnames], "trainable": tr,
+                "tolist": tolist_keys(c, pnames)})
   return out
 
 
@@ -189,7 +242,13 @@ def layer_table():
   for n, c in co.items():
     if is_quantizer_class(c) or n in NOT_LAYER_SPECS:
       continue
+    if not (inspect.isclass(c) and issubclass(c, tf.keras.layers.Layer)) or n not in SAMPLE_ARGS:
+      # not a layer class (e.g. a plain function registered by name) or a class this file has no
+      # sample arguments for: nothing to tabulate; the key itself is reported by the comparison of
+      # the table's key list
+      continue
     ps = sig_params(c)
+    ps = ps + forwarded_params(c, co, SAMPLE_ARGS[n])
     pnames = [p[0] for p in ps]
     inst = c(**SAMPLE_ARGS[n])
     cfg = inst.get_config()
@@ -198,6 +257,8 @@ def layer_table():
       kind = kind_of(n, name, pnames)
       read = (kind["k"] in ("quant", "act", "rawAct", "mask")) or (kind["k"] in ("lit", "fixed") and name in READ_LITS) \
           or (n == "QAdaptiveActivation" and name == "activation")
+      if (n, name) in FORWARDED_NOT_READ:
+        read = False
       params.append({"name": name, "kind": kind, "default": default_arg(kind, d, qnames), "required": bool(req),
                      "emitted": name in cfg, "read": bool(read)})
     none_lin = False
@@ -208,8 +269,17 @@ def layer_table():
   return out
 
 
+def keras_activation_names():
+  """the names `tf.keras.activations.get` resolves on its own (public functions of the module)"""
+  import tensorflow as tf
+  return sorted(n for n in dir(tf.keras.activations)
+                if not n.startswith("_") and callable(getattr(tf.keras.activations, n))
+                and n not in ("get", "serialize", "deserialize"))
+
+
 def live_tables():
-  return {"quantizers": quantizer_table(), "layers": layer_table(), "custom_objects": list(custom_objects().keys())}
+  return {"quantizers": quantizer_table(), "layers": layer_table(), "custom_objects": list(custom_objects().keys()),
+          "keras_activation_names": keras_activation_names()}
 
 
 # ----------------------------------------------------------------------------- Lean emission
@@ -277,11 +347,12 @@ def emit_lean(t):
            "  Kinds, read flags, hooks and trainable slots are the hand-written part (rules in that file).\n-/\n"
            "import QKV.Model.LayerConfig\nnamespace QKV.LC\n")
   for q in t["quantizers"]:
-    o.append("def qs_%s : QSpec :=\n  { name := %s,\n    params := [%s],\n    emits := [%s],\n    extra := [%s],\n    trainable := %d }\n"
+    o.append("def qs_%s : QSpec :=\n  { name := %s,\n    params := [%s],\n    emits := [%s],\n    extra := [%s],\n    trainable := %d,\n    tolist := [%s] }\n"
              % (q["name"], lean_str(q["name"]),
                 ",\n      ".join("(%s, %s)" % (lean_str(k), lean_pv(d)) for k, d in q["params"]),
                 ", ".join(lean_str(k) for k in q["emits"]),
-                ", ".join("(%s, %s)" % (lean_str(k), lean_pv(d)) for k, d in q["extra"]), q["trainable"]))
+                ", ".join("(%s, %s)" % (lean_str(k), lean_pv(d)) for k, d in q["extra"]), q["trainable"],
+                ", ".join(lean_str(k) for k in q["tolist"])))
   o.append("def qSpecs : List QSpec :=\n  [%s]\n" % ", ".join("qs_" + q["name"] for q in t["quantizers"]))
   for l in t["layers"]:
     ps = []
@@ -296,8 +367,11 @@ def emit_lean(t):
   o.append("def lSpecs : List LSpec :=\n  [%s]\n" % ", ".join("ls_" + l["name"] for l in t["layers"]))
   o.append("/-- keys of `_add_supported_quantized_objects`, in insertion order -/\n"
            "def customObjects : List String :=\n  [%s]\n" % ", ".join(lean_str(k) for k in t["custom_objects"]))
+  o.append("/-- the built-in activation names of Keras (public functions of `tf.keras.activations`) -/\n"
+           "def kerasActivationNames : List String :=\n  [%s]\n" % ", ".join(lean_str(k) for k in t["keras_activation_names"]))
   o.append("/-- the environment of the real library; `clipBound` stays a parameter -/\n"
-           "def env (clipBound : QVal → PyVal) : Env :=\n  { qspecs := qSpecs, lspecs := lSpecs, customObjects := customObjects, clipBound := clipBound }\n")
+           "def env (clipBound : QVal → PyVal) : Env :=\n  { qspecs := qSpecs, lspecs := lSpecs, customObjects := customObjects, clipBound := clipBound,\n"
+           "    kerasNames := kerasActivationNames }\n")
   o.append("end QKV.LC\n")
   return "\n".join(o)
 
